@@ -303,9 +303,34 @@ def monitors(res, cfg, events, lines, script):
     close_done = False
     expected_msgs, handed = [], []
     pending_attempt = False
+    now = 0
+    due = None          # C13 (i): virtual time by which the next connection attempt must have been made
+    in_flight = 0
+    live = False
+    no_reconnect = None
+    loss_delay = 1000 if script.get('client') == 'twisted' else 0
     for ev, line in zip(events, lines):
         outs = [o for o in line.split(';') if o]
         k = ev[0]
+        if k == 'advance':
+            now += int(ev[1])
+        elif k == 'refuse' and in_flight and not closed:
+            in_flight -= 1
+            due = now + 1000
+        elif k == 'accept' and in_flight:
+            in_flight -= 1
+            live = True
+        elif k == 'lost' and live:
+            live = False
+            if not closed:
+                due = now + loss_delay
+        elif k == 'close':
+            due = None
+        if 'T' in outs:
+            in_flight += outs.count('T')
+            due = None
+        if due is not None and now >= due and no_reconnect is None:
+            no_reconnect = (k, now)
         if k == 'sub':
             wanted.add(hx(ev[1]))
         elif k == 'unsub':
@@ -385,6 +410,8 @@ def monitors(res, cfg, events, lines, script):
         if sorted(subs) != want:
             res.violation('C11', 'resubscribe-set', 'asyncio session: after OP_AUTH on connection %d it subscribed to %d channel(s); the application wants %r' % (kk, len(subs), sorted(wanted_then)), script)
     # C13
+    if no_reconnect is not None:
+        res.violation('C13', 'no-reconnect', 'asyncio session made no new connection attempt although the previous connection/attempt failed and the retry delay has passed (event %r at t=%d ms)' % no_reconnect, script)
     if attempts_after_close:
         res.violation('C13', 'attempt-after-close', 'asyncio session made %d connection attempt(s) after close()' % attempts_after_close, script)
     if closed and not close_done:
